@@ -177,3 +177,184 @@ package gpbft
 //@   loop 2
 //@     invariant len(res) == len(c.TipSets) && c.TipSets == old(c.TipSets) && len(batch) == len(c.TipSets) && 0 <= i && i < len(c.TipSets)
 //@     invariant forall(j, 0, i, res[j] != nil && len(res[j].TipSets) == j + 1 && forall(k, 0, j + 1, res[j].TipSets[k] == c.TipSets[k]))
+
+// ---- C05 / C13: message validation ----
+
+// Relevance window, written from the property: an instance within [current, current+lookback), or a DECIDE of the
+// previous instance; inside the current instance QUALITY and DECIDE always, other steps from the previous round on,
+// and only DECIDE once the participant is at DECIDE.
+//@ pred relevantNow(phase Phase, round uint64, curPhase Phase, curRound uint64) = !(curPhase == DECIDE_PHASE && phase != DECIDE_PHASE) && (phase == QUALITY_PHASE || phase == DECIDE_PHASE || round + 1 >= curRound)
+
+//@ axiom validation_error_sentinels_are_distinct: ErrValidationInvalid != ErrValidationTooOld && ErrValidationInvalid != ErrValidationNoCommittee && ErrValidationInvalid != ErrValidationNotRelevant && ErrValidationInvalid != ErrValidationWrongBase && ErrValidationInvalid != ErrValidationWrongSupplement && ErrValidationTooOld != ErrValidationNoCommittee && ErrValidationTooOld != ErrValidationNotRelevant && ErrValidationNoCommittee != ErrValidationNotRelevant
+
+//@ pred noWrap(cur uint64, lookback uint64) = lookback > 0 && cur + lookback <= 18446744073709551615
+
+//@ func (*cachingValidator).validateByProgress
+//@   property C05 C13
+//@   modifies auto
+//@   at return 0
+//@     before[beyond_the_committee_lookback_is_no_committee] noWrap(res(progress, 1).ID, v.committeeLookback) && msg.Vote.Instance >= res(progress, 1).ID + v.committeeLookback ==> arg(0) == ErrValidationNoCommittee
+//@     before[future_instances_inside_the_lookback_pass] noWrap(res(progress, 1).ID, v.committeeLookback) && msg.Vote.Instance > res(progress, 1).ID && msg.Vote.Instance < res(progress, 1).ID + v.committeeLookback ==> arg(0) == nil
+//@     before[decide_of_the_previous_instance_passes] noWrap(res(progress, 1).ID, v.committeeLookback) && msg.Vote.Instance + 1 == res(progress, 1).ID && msg.Vote.Phase == DECIDE_PHASE ==> arg(0) == nil
+//@     before[older_than_that_is_too_old] noWrap(res(progress, 1).ID, v.committeeLookback) && msg.Vote.Instance < res(progress, 1).ID && !(msg.Vote.Instance + 1 == res(progress, 1).ID && msg.Vote.Phase == DECIDE_PHASE) ==> arg(0) == ErrValidationTooOld
+//@     before[current_instance_relevant_messages_pass] noWrap(res(progress, 1).ID, v.committeeLookback) && msg.Vote.Instance == res(progress, 1).ID && relevantNow(msg.Vote.Phase, msg.Vote.Round, res(progress, 1).Phase, res(progress, 1).Round) ==> arg(0) == nil
+//@     before[current_instance_irrelevant_messages_are_not_relevant] noWrap(res(progress, 1).ID, v.committeeLookback) && msg.Vote.Instance == res(progress, 1).ID && !relevantNow(msg.Vote.Phase, msg.Vote.Round, res(progress, 1).Phase, res(progress, 1).Round) ==> arg(0) == ErrValidationNotRelevant
+//@     before[never_branded_invalid_here] arg(0) != ErrValidationInvalid
+
+// Committees handed out by a provider carry a well-formed power table (the shape PowerTable.Add / rescale establish).
+//@ func github.com/filecoin-project/go-f3/gpbft.CommitteeProvider.GetCommittee
+//@   trusted committee providers hand out committees whose power table has the shape established by PowerTable.Add
+//@   modifies nothing
+//@   ensures result1 == nil ==> result0 != nil && tblOK(result0.PowerTable)
+
+// The verdict nil is reached in two ways only: the cache says this exact message (its full CBOR, in the namespace of
+// its kind, in its instance's group) was accepted before; or every rule of the property held in this call.
+//@ func (*cachingValidator).validateMessageWithVoteValueKey
+//@   property C05 C13
+//@   modifies auto
+//@   maypanic
+//@   opaque Get
+//@   at isAlreadyValidated 1
+//@     before[cache_lookup_is_keyed_by_instance_kind_and_full_encoding] arg(1) == msg.Vote.Instance && arg(2) == res(message, 1) && argOf(message, 1, 0) == (valueKey != nil) && arg(3) == cacheKey && len(cacheKey) > 0
+//@   at return 1
+//@     before[a_cache_hit_is_a_positive_answer_without_error] res(isAlreadyValidated, 1, 0) && res(isAlreadyValidated, 1, 1) == nil
+//@   at Get 1
+//@     before[committee_of_the_messages_instance] argOf(GetCommittee, 1, 1) == msg.Vote.Instance && res(GetCommittee, 1, 1) == nil && arg(0) == res(GetCommittee, 1, 0).PowerTable && arg(1) == msg.Sender
+//@   at Verify 1
+//@     before[sender_has_power_value_well_formed] res(Get, 1, 0) != 0 && res(Validate, 1) == nil && argOf(Validate, 1, 0) == msg.Vote.Value
+//@     before[bottom_is_the_zero_value_or_the_zero_key] voteForBottom == ((valueKey == nil && res(IsZero, 1)) || (valueKey != nil && res(IsZero, 2))) && (valueKey == nil ==> argOf(IsZero, 1, 0) == msg.Vote.Value) && (valueKey != nil ==> argOf(IsZero, 2, 0) == *valueKey)
+//@     before[quality_is_round_zero_and_not_bottom] msg.Vote.Phase == QUALITY_PHASE ==> msg.Vote.Round == 0 && !voteForBottom
+//@     before[converge_is_a_later_round_not_bottom_with_a_verifying_ticket] msg.Vote.Phase == CONVERGE_PHASE ==> msg.Vote.Round != 0 && !voteForBottom && res(VerifyTicket, 1) && argOf(VerifyTicket, 1, 0) == v.networkName && argOf(VerifyTicket, 1, 1) == res(GetCommittee, 1, 0).Beacon && argOf(VerifyTicket, 1, 2) == msg.Vote.Instance && argOf(VerifyTicket, 1, 3) == msg.Vote.Round && argOf(VerifyTicket, 1, 4) == res(Get, 1, 1) && argOf(VerifyTicket, 1, 5) == v.verifier && argOf(VerifyTicket, 1, 6) == msg.Ticket
+//@     before[decide_is_round_zero_and_not_bottom] msg.Vote.Phase == DECIDE_PHASE ==> msg.Vote.Round == 0 && !voteForBottom
+//@     before[only_the_five_steps] msg.Vote.Phase == QUALITY_PHASE || msg.Vote.Phase == CONVERGE_PHASE || msg.Vote.Phase == PREPARE_PHASE || msg.Vote.Phase == COMMIT_PHASE || msg.Vote.Phase == DECIDE_PHASE
+//@     before[signature_is_checked_over_the_exact_payload_with_the_senders_key] arg(0) == res(Get, 1, 1) && arg(2) == msg.Signature && (valueKey == nil ==> arg(1) == res(MarshalForSigning, 1) && argOf(MarshalForSigning, 1, 0) == &msg.Vote && argOf(MarshalForSigning, 1, 1) == v.networkName) && (valueKey != nil ==> arg(1) == res(MarshalForSigningWithValueKey, 1) && argOf(MarshalForSigningWithValueKey, 1, 0) == &msg.Vote && argOf(MarshalForSigningWithValueKey, 1, 1) == v.networkName)
+//@   at validateJustification 1
+//@     assume msg.Justification != nil ==> ssumDef(res(GetCommittee, 1, 0).PowerTable.ScaledPower, msg.Justification.Signers)
+//@   at return 16
+//@     before[accepted_only_with_a_verifying_signature] dominatedBy(Verify, 1) && res(Verify, 1) == nil
+//@     before[justification_present_exactly_when_required] ite(msg.Vote.Phase == QUALITY_PHASE || (msg.Vote.Phase == PREPARE_PHASE && msg.Vote.Round == 0) || (msg.Vote.Phase == COMMIT_PHASE && voteForBottom), msg.Justification == nil, res(validateJustification, 1) == nil && argOf(validateJustification, 1, 2) == valueKey && argOf(validateJustification, 1, 3) == msg && argOf(validateJustification, 1, 4) == res(GetCommittee, 1, 0))
+//@   at Add 3
+//@     before[cached_under_the_key_it_is_looked_up_by_and_only_when_accepted] arg(0) == v.cache && arg(1) == msg.Vote.Instance && arg(2) == res(message, 1) && arg(3) == cacheKey && dominatedBy(Verify, 1) && res(Verify, 1) == nil
+//@   at return 0
+//@     before[nil_only_from_the_cache_or_the_full_check] arg(0) == nil ==> dominatedBy(isAlreadyValidated, 1) || dominatedBy(Verify, 1)
+
+// Shape invariant of a power table as handed out by committee providers (established by PowerTable.Add / rescale, C08).
+//@ pred tblOK(pt *PowerTable) = pt != nil && len(pt.ScaledPower) == len(pt.Entries) && len(pt.Entries) <= 4294967296
+//@     && 0 <= pt.ScaledTotal && pt.ScaledTotal <= 65535
+//@     && forall(i, 0, len(pt.ScaledPower), 0 <= pt.ScaledPower[i] && pt.ScaledPower[i] <= 65535)
+
+// The signer list of a justification: the set bits of the bit field in increasing order (hence distinct), each an index
+// into the table with non-zero scaled power, and the power returned is their sum.
+//@ func (*Justification).GetSigners
+//@   property C05 C03
+//@   requires pt != nil ==> tblOK(pt) && ssumDef(pt.ScaledPower, m.Signers)
+//@   modifies auto
+//@   ensures[nil_table_is_an_error] m != nil && pt == nil ==> result2 != nil
+//@   ensures[signers_are_table_members_with_power] result2 == nil && m != nil ==> old(forall(k, 0, bfCount(m.Signers), bfBit(m.Signers, k) < len(pt.Entries) && pt.ScaledPower[bfBit(m.Signers, k)] > 0))
+//@   ensures[power_is_the_sum_of_the_signers_scaled_power] result2 == nil && m != nil ==> result0 == old(ssum(pt.ScaledPower, m.Signers, bfCount(m.Signers)))
+//@   ensures[signer_list_is_the_set_bits_in_order] result2 == nil && m != nil ==> len(result1) == old(bfCount(m.Signers)) && forall(j, 0, len(result1), result1[j] == old(bfBit(m.Signers, j)))
+//@   iter 1
+//@     invariant signersScaledPower == ssum(pt.ScaledPower, m.Signers, iter) && 0 <= signersScaledPower && signersScaledPower <= 65535*iter
+//@     invariant len(signers) == iter && (iter == 0 || elem(iter-1) >= iter-1) && iter <= len(pt.Entries)
+//@     invariant forall(j, 0, iter, signers[j] == elem(j) && elem(j) < len(pt.Entries) && pt.ScaledPower[elem(j)] > 0)
+
+// A justification is accepted only with a strong quorum of the committee's scaled power behind it and an aggregate
+// signature that verifies, for exactly the listed signers, over the justification's vote bound to the expected value.
+//@ func (*cachingValidator).validateJustificationSignature
+//@   property C05 C13 C03
+//@   requires comt != nil && tblOK(comt.PowerTable) && justif != nil && ssumDef(comt.PowerTable.ScaledPower, justif.Signers)
+//@   modifies auto
+//@   maypanic
+//@   at IsStrongQuorum 1
+//@     before[quorum_is_judged_on_the_signers_power_against_the_tables_total] arg(0) == res(GetSigners, 1, 0) && arg(1) == comt.PowerTable.ScaledTotal && res(GetSigners, 1, 2) == nil && argOf(GetSigners, 1, 0) == justif && argOf(GetSigners, 1, 1) == comt.PowerTable
+//@   at VerifyAggregate 1
+//@     before[aggregate_is_checked_for_the_signers_over_the_vote_bound_to_the_expected_value] res(IsStrongQuorum, 1) && arg(0) == res(GetSigners, 1, 1) && arg(1) == res(MarshalForSigningWithValueKey, 1) && arg(2) == justif.Signature && argOf(MarshalForSigningWithValueKey, 1, 0) == &justif.Vote && argOf(MarshalForSigningWithValueKey, 1, 1) == v.networkName && argOf(MarshalForSigningWithValueKey, 1, 2) == expectedVoteValueKey
+//@   at return 0
+//@     before[nil_only_after_the_aggregate_verified] arg(0) == nil ==> dominatedBy(VerifyAggregate, 1) && res(VerifyAggregate, 1) == nil
+//@   ensures[strong_quorum_behind_every_accepted_justification] result == nil ==> old(3*ssum(comt.PowerTable.ScaledPower, justif.Signers, bfCount(justif.Signers)) >= 2*comt.PowerTable.ScaledTotal)
+
+// The justification table written from the protocol rules: CONVERGE and PREPARE (rounds > 0) are justified by COMMIT
+// for bottom or PREPARE for the same value from the previous round; COMMIT by PREPARE for the same value in the same
+// round; DECIDE by COMMIT for the same value (any round).
+//@ func (*cachingValidator).validateJustification
+//@   property C05 C13
+//@   harness harness/validator_sentinel_round_test.go
+//@   requires msg != nil && comt != nil && tblOK(comt.PowerTable) && (msg.Justification != nil ==> ssumDef(comt.PowerTable.ScaledPower, msg.Justification.Signers))
+//@   requires !((msg.Vote.Phase == CONVERGE_PHASE || msg.Vote.Phase == PREPARE_PHASE) && msg.Vote.Round == 0)
+//@   modifies auto
+//@   maypanic
+//@   at getCacheKey 1
+//@     before[justification_present_for_the_same_instance_and_supplemental_data] msg.Justification != nil && msg.Vote.Instance == msg.Justification.Vote.Instance && res(Eq, 1) && argOf(Eq, 1, 0) == &msg.Vote.SupplementalData && argOf(Eq, 1, 1) == &msg.Justification.Vote.SupplementalData
+//@     before[justification_value_is_well_formed] res(Validate, 1) == nil && argOf(Validate, 1, 0) == msg.Justification.Vote.Value
+//@     before[prescribed_step] ((msg.Vote.Phase == CONVERGE_PHASE || msg.Vote.Phase == PREPARE_PHASE) && (msg.Justification.Vote.Phase == COMMIT_PHASE || msg.Justification.Vote.Phase == PREPARE_PHASE)) || (msg.Vote.Phase == COMMIT_PHASE && msg.Justification.Vote.Phase == PREPARE_PHASE) || (msg.Vote.Phase == DECIDE_PHASE && msg.Justification.Vote.Phase == COMMIT_PHASE)
+//@     before[prescribed_round] (msg.Vote.Phase == CONVERGE_PHASE || msg.Vote.Phase == PREPARE_PHASE ==> msg.Justification.Vote.Round + 1 == msg.Vote.Round) && (msg.Vote.Phase == COMMIT_PHASE ==> msg.Justification.Vote.Round == msg.Vote.Round)
+//@     before[prescribed_value] expectedVoteValueKey == ite((msg.Vote.Phase == CONVERGE_PHASE || msg.Vote.Phase == PREPARE_PHASE) && msg.Justification.Vote.Phase == COMMIT_PHASE, res(Key, 1), ite(valueKey != nil, *valueKey, res(Key, 2)))
+//@          && (valueKey == nil ==> argOf(Key, 2, 0) == msg.Vote.Value) && arg(1) == msg.Justification
+//@     before[a_complete_message_carries_the_justified_value_itself] valueKey == nil ==> res(Equal, 1) && argOf(Key, 3, 0) == msg.Justification.Vote.Value
+//@   at isAlreadyValidated 1
+//@     before[cache_lookup_is_keyed_by_instance_kind_encoding_and_expected_value] arg(1) == msg.Vote.Instance && arg(2) == res(justification, 1) && argOf(justification, 1, 0) == (valueKey != nil) && arg(3) == res(getCacheKey, 1, 0) && res(getCacheKey, 1, 1) == nil
+//@   at return 9
+//@     before[a_cache_hit_is_a_positive_answer_without_error] res(isAlreadyValidated, 1, 0) && res(isAlreadyValidated, 1, 1) == nil
+//@   at validateJustificationSignature 1
+//@     before[quorum_and_aggregate_are_checked_against_the_expected_value] arg(1) == comt && arg(2) == msg.Justification && arg(3) == expectedVoteValueKey && dominatedBy(getCacheKey, 1)
+//@   at Add 3
+//@     before[cached_under_the_key_it_is_looked_up_by_and_only_when_accepted] arg(0) == v.cache && arg(1) == msg.Vote.Instance && arg(2) == res(justification, 1) && arg(3) == cacheKey && res(validateJustificationSignature, 1) == nil && (res(getCacheKey, 1, 1) == nil ==> cacheKey == res(getCacheKey, 1, 0))
+//@   at return 11
+//@     before[accepted_only_after_quorum_and_aggregate_verified] dominatedBy(validateJustificationSignature, 1) && res(validateJustificationSignature, 1) == nil
+//@   at return 0
+//@     before[nil_only_from_the_cache_or_the_full_check] arg(0) == nil ==> dominatedBy(getCacheKey, 1)
+
+// One-shot validation: relevance first, then the rules over the complete message; verdicts pass through unchanged.
+//@ func (*cachingValidator).ValidateMessage
+//@   property C05 C13
+//@   modifies auto
+//@   maypanic
+//@   at validateMessageWithVoteValueKey 1
+//@     before[rules_are_checked_for_a_relevant_complete_message] res(validateByProgress, 1) == nil && argOf(validateByProgress, 1, 1) == msg && arg(3) == nil && arg(4) == msg
+//@     before[cache_key_is_the_full_encoding_of_the_message_or_absent] ite(res(getCacheKey, 1, 1) == nil, arg(2) == res(getCacheKey, 1, 0), len(arg(2)) == 0) && argOf(getCacheKey, 1, 1) == msg && len(argOf(getCacheKey, 1, 2)) == 0
+//@   at return 2
+//@     before[relevance_verdict_is_passed_on] arg(1) == res(validateByProgress, 1) && arg(1) != nil
+//@   at return 3
+//@     before[rule_verdict_is_passed_on] arg(1) == res(validateMessageWithVoteValueKey, 1) && arg(1) != nil
+//@   at return 4
+//@     before[accepted_only_when_relevant_and_every_rule_held] arg(1) == nil && res(validateByProgress, 1) == nil && res(validateMessageWithVoteValueKey, 1) == nil
+//@   at return 1
+//@     before[nil_message_is_invalid] arg(1) == ErrValidationInvalid
+
+// Stage one of two-stage validation: the same rules, with the announced key standing in for the chain.
+//@ func (*cachingValidator).PartiallyValidateMessage
+//@   property C05 C13
+//@   modifies auto
+//@   maypanic
+//@   at validateMessageWithVoteValueKey 1
+//@     before[rules_are_checked_for_a_relevant_message_with_the_announced_key] res(validateByProgress, 1) == nil && argOf(validateByProgress, 1, 1) == msg.GMessage && arg(3) == &msg.VoteValueKey && arg(4) == msg.GMessage
+//@     before[cache_key_is_the_full_encoding_of_the_partial_message_or_absent] ite(res(getCacheKey, 1, 1) == nil, arg(2) == res(getCacheKey, 1, 0), len(arg(2)) == 0) && argOf(getCacheKey, 1, 1) == msg && len(argOf(getCacheKey, 1, 2)) == 0
+//@   at return 2
+//@     before[relevance_verdict_is_passed_on] arg(1) == res(validateByProgress, 1) && arg(1) != nil
+//@   at return 3
+//@     before[rule_verdict_is_passed_on] arg(1) == res(validateMessageWithVoteValueKey, 1) && arg(1) != nil
+//@   at return 4
+//@     before[accepted_only_when_relevant_and_every_rule_held] arg(1) == nil && res(validateByProgress, 1) == nil && res(validateMessageWithVoteValueKey, 1) == nil
+//@   at return 1
+//@     before[nil_message_is_invalid] arg(1) == ErrValidationInvalid
+
+// Stage two: what stage one could not see. The chain must be well-formed and be the chain of the announced key, the
+// message must still be relevant, bottom must be announced as bottom, and the justification must be for the value
+// the protocol prescribes for the step pair.
+//@ func (*cachingValidator).FullyValidateMessage
+//@   property C13
+//@   modifies auto
+//@   maypanic
+//@   at return 11
+//@     before[chain_is_well_formed_and_is_the_chain_of_the_announced_key] res(Validate, 1) == nil && argOf(Validate, 1, 0) == pmsg.Vote.Value && pmsg.VoteValueKey == res(Key, 1) && argOf(Key, 1, 0) == pmsg.Vote.Value
+//@     before[still_relevant] res(validateByProgress, 1) == nil && argOf(validateByProgress, 1, 1) == pmsg.GMessage
+//@     before[zero_key_means_bottom_in_vote_and_justification] res(IsZero, 1) ==> res(IsZero, 2) && argOf(IsZero, 2, 0) == pmsg.Vote.Value && (pmsg.Justification != nil ==> res(IsZero, 3) && argOf(IsZero, 3, 0) == pmsg.Justification.Vote.Value)
+//@     before[announced_key_is_what_is_tested_for_zero] argOf(IsZero, 1, 0) == pmsg.VoteValueKey
+//@     before[justification_is_for_the_prescribed_value] pmsg.Justification != nil ==> res(Eq, 1) && argOf(Eq, 1, 0) == pmsg.Justification.Vote.Value
+//@          && ite((pmsg.Vote.Phase == CONVERGE_PHASE || pmsg.Vote.Phase == PREPARE_PHASE) && pmsg.Justification.Vote.Phase == COMMIT_PHASE,
+//@                 argOf(Eq, 1, 1) != nil && len(argOf(Eq, 1, 1).TipSets) == 0,
+//@                 argOf(Eq, 1, 1) == pmsg.Vote.Value)
+//@     before[justification_is_from_a_prescribed_step] pmsg.Justification != nil ==> ((pmsg.Vote.Phase == CONVERGE_PHASE || pmsg.Vote.Phase == PREPARE_PHASE) && (pmsg.Justification.Vote.Phase == COMMIT_PHASE || pmsg.Justification.Vote.Phase == PREPARE_PHASE)) || (pmsg.Vote.Phase == COMMIT_PHASE && pmsg.Justification.Vote.Phase == PREPARE_PHASE) || (pmsg.Vote.Phase == DECIDE_PHASE && pmsg.Justification.Vote.Phase == COMMIT_PHASE)
+//@     before[the_message_handed_on_is_the_completed_one] pmsg == res(PartialMessage, 1)
+//@   at return 0
+//@     before[accepted_only_at_the_end] arg(1) == nil ==> dominatedBy(validateByProgress, 1)
